@@ -46,7 +46,7 @@ class Prop:
 
     def gen_cases(self, rng, tier):
         # classes enumerated on every run (gen/ribenum.py) come first
-        cases = E.all_enumerated(self.enum_which)
+        cases = E.all_enumerated(self.enum_which, tier)
         n = 600 if tier == 'quick' else 6000
         for k in range(n):
             evpn = (k % 7 == 6)
